@@ -173,8 +173,11 @@ TRANSPORT_HABITS = ("transport habits drawn per call: transit time (the handler 
                     "keeps the answer in its buffer until the handler flushes, overflows it or returns, and gives a complete one its Content-Length; an eighth of the calls go through an HTTPClient whose hand-built Response leaves ContentLength at zero")
 ADDENDA = {
     "C07": "unknown-compression requests include lists of codings on one header line and on two",
-    "C10": "a re-sent Request may carry a deadline too far away for the header to express",
-    "C19": "recovery functions whose error quotes a panic value that is not valid UTF-8",
+    "C10": "a re-sent Request may carry a deadline too far away for the header to express; a third of the unary calls with a deadline use a client codec that takes fake time over "
+           "the request message (for unary Connect the bound is the time remaining when marshalling ended)",
+    "C19": "recovery functions whose error quotes a panic value that is not valid UTF-8; the handler's other interceptors (up to three, each its own option) record whether a call "
+           "returned through them or a panic unwound through them, which must match the configured position of WithRecover; in a quarter of the unary calls one of them mirrors the "
+           "request object to a shadow client before the call proceeds",
     "C01": "a sixth of the runs put an interceptor on one side that receives streamed messages through the conn-level API into two scratch "
            "values used in turn; codec marshal failures (plain and wrapping io.EOF) on some messages; " + TRANSPORT_HABITS,
     "C02": "errors (plain or coded) whose cause wraps io.EOF; details whose type is not linked into the binary or that have no JSON form (the two listed open findings); handlers whose codecs marshal the service's own messages only (a tenth of the runs: intact over Connect, a coded failure with its metadata over gRPC / gRPC-Web); errors received from another "
@@ -195,7 +198,7 @@ ADDENDA = {
     "C13": "a quarter of the unary HTTP/2 calls are retries of the very same Request after a first attempt that its deadline cut short, or "
            "that the HTTPClient itself gave up on under a context that never ends - while the stub's HTTP/2 transport reads the request's "
            "header map once more at a later step, as net/http's header-encoding goroutine may (race build); one client may be misconfigured so that every call fails locally (each call must get its own error value); clients may annotate the errors "
-           "they receive",
+           "they receive; a third of the server and bidi streams call Receive once more after the stream has reported its end",
     "C14": "a third of the calls run under a context that can be cancelled but outlives the call (the library's watcher must be gone "
            "when the call is); Do failures (nothing answers); calls refused by the protocol layer (compression the handler lacks), first messages that cannot be marshalled, programs that abandon a "
            "cancelled call without closing it, lock-step bidi programs; " + TRANSPORT_HABITS,
